@@ -10,6 +10,19 @@ Unset Printing Implicit Defensive.
 Import GRing.Theory.
 Local Open Scope ring_scope.
 
+(* closes goals that are equal as sums of atoms (abelian-group reasoning, entry by entry): every
+   matrix product becomes an opaque atom, then every matrix entry, then Algebra Tactics' ring *)
+Ltac mx_atoms :=
+  repeat match goal with
+         | |- context [?A *m ?B] => let X := fresh "X" in set X := (A *m B); clearbody X
+         end.
+Ltac mx_entries :=
+  repeat match goal with
+         | |- context [@fun_of_matrix _ _ _ ?A ?i ?j] =>
+             let x := fresh "x" in set x := (@fun_of_matrix _ _ _ A i j); clearbody x
+         end.
+Ltac mx_abel := mx_atoms; apply/matrixP=> ? ?; rewrite !mxE; mx_entries; ring.
+
 Section Sym.
 Variable F : fieldType.
 
@@ -99,3 +112,181 @@ by rewrite nth_ord_enum.
 Qed.
 
 End RowSelection.
+
+(* ------------------------------------------------------------------ *)
+(* Gaussian conditioning, defined algebraically                        *)
+(* ------------------------------------------------------------------ *)
+Section Gauss.
+Variable F : fieldType.
+
+(* (x, y) jointly Gaussian with means (mu_x, mu_y) and covariance [[Sxx, Sxy], [Sxy', Syy]] *)
+Definition cond_mean nx ny (mu_x : 'cV[F]_nx) (mu_y : 'cV[F]_ny) (Sxy : 'M[F]_(nx, ny)) (Syy : 'M[F]_ny)
+    (y : 'cV[F]_ny) : 'cV[F]_nx :=
+  mu_x + Sxy *m invmx Syy *m (y - mu_y).
+Definition cond_cov nx ny (Sxx : 'M[F]_nx) (Sxy : 'M[F]_(nx, ny)) (Syy : 'M[F]_ny) : 'M[F]_nx :=
+  Sxx - Sxy *m invmx Syy *m Sxy^T.
+(* cross covariance of (x, z) given y *)
+Definition cond_cross nx nz ny (Sxz : 'M[F]_(nx, nz)) (Sxy : 'M[F]_(nx, ny)) (Syy : 'M[F]_ny)
+    (Szy : 'M[F]_(nz, ny)) : 'M[F]_(nx, nz) :=
+  Sxz - Sxy *m invmx Syy *m Szy^T.
+(* the quadratic form of the density *)
+Definition maha k (mu : 'cV[F]_k) (S : 'M[F]_k) (y : 'cV[F]_k) : F :=
+  ((y - mu)^T *m invmx S *m (y - mu)) 0 0.
+
+Lemma inv_from_mul k (A B : 'M[F]_k) : A *m B = 1%:M -> invmx A = B.
+Proof.
+move=> E; have [uA _] := mulmx1_unit E.
+by rewrite -[LHS]mulmx1 -E mulKmx.
+Qed.
+
+Section Schur.
+Variables n1 n2 : nat.
+Variables (A : 'M[F]_n1) (B : 'M[F]_(n1, n2)) (C : 'M[F]_(n2, n1)) (D : 'M[F]_n2).
+Let S := D - C *m invmx A *m B.                 (* Schur complement of A *)
+Hypothesis uA : A \in unitmx.
+Hypothesis uS : S \in unitmx.
+Let Ai := invmx A.
+Let Si := invmx S.
+
+Definition schur_inverse : 'M[F]_(n1 + n2) :=
+  block_mx (Ai + Ai *m B *m Si *m C *m Ai) (- (Ai *m B *m Si)) (- (Si *m C *m Ai)) Si.
+
+Lemma schur_mul_inverse : block_mx A B C D *m schur_inverse = 1%:M.
+Proof.
+rewrite /schur_inverse mulmx_block [RHS]scalar_mx_block.
+have AAi : A *m Ai = 1%:M by rewrite mulmxV.
+have SSi : S *m Si = 1%:M by rewrite mulmxV.
+have DSi : D *m Si = 1%:M + C *m Ai *m B *m Si.
+  by rewrite -SSi /S mulmxBl subrK.
+congr block_mx.
+- rewrite !(mulmxDr, mulmxN) !mulmxA AAi !mul1mx.
+  by mx_abel.
+- by rewrite mulmxN !mulmxA AAi mul1mx addNr.
+- rewrite !(mulmxDr, mulmxN) !mulmxA DSi !mulmxDl mul1mx.
+  by mx_abel.
+- by rewrite mulmxN !mulmxA DSi; mx_abel.
+Qed.
+
+Lemma schur_inv : invmx (block_mx A B C D) = schur_inverse.
+Proof. exact: inv_from_mul schur_mul_inverse. Qed.
+
+Lemma schur_unit : block_mx A B C D \in unitmx.
+Proof. by have [] := mulmx1_unit schur_mul_inverse. Qed.
+
+(* determinant of a block matrix through the Schur complement *)
+Lemma schur_det : \det (block_mx A B C D) = \det A * \det S.
+Proof.
+have -> : block_mx A B C D = block_mx 1%:M 0 (C *m Ai) 1%:M *m block_mx A B 0 S.
+  rewrite mulmx_block !mul1mx !mul0mx !addr0.
+  have -> : C *m Ai *m A = C by rewrite -mulmxA mulVmx // mulmx1.
+  by rewrite /S addrC subrK.
+by rewrite det_mulmx det_lblock det_ublock !det1 !mul1r.
+Qed.
+
+End Schur.
+
+
+(* ---- tower law: conditioning on y1 and then on y2 = conditioning on (y1, y2) ---- *)
+Section Tower.
+Variables nx n1 n2 : nat.
+Variables (mu_x : 'cV[F]_nx) (m1 y1 : 'cV[F]_n1) (m2 y2 : 'cV[F]_n2).
+Variables (Sxx : 'M[F]_nx) (Sx1 : 'M[F]_(nx, n1)) (Sx2 : 'M[F]_(nx, n2)).
+Variables (S11 : 'M[F]_n1) (S12 : 'M[F]_(n1, n2)) (S22 : 'M[F]_n2).
+Let S21 := S12^T.
+(* moments of (x, y2) given y1 *)
+Let mx1 := cond_mean mu_x m1 Sx1 S11 y1.
+Let m21 := cond_mean m2 m1 S21 S11 y1.
+Let Sxx1 := cond_cov Sxx Sx1 S11.
+Let Sx21 := cond_cross Sx2 Sx1 S11 S21.
+Let S221 := cond_cov S22 S21 S11.
+Hypothesis u11 : S11 \in unitmx.
+Hypothesis u221 : S221 \in unitmx.
+
+Let Syy := block_mx S11 S12 S21 S22.
+Let Sxy := row_mx Sx1 Sx2.
+
+Lemma S221_schur : S221 = S22 - S21 *m invmx S11 *m S12.
+Proof. by rewrite /S221 /cond_cov /S21 trmxK. Qed.
+
+Lemma tower_unit : Syy \in unitmx.
+Proof. by apply: schur_unit => //; rewrite -S221_schur. Qed.
+
+Lemma tower_inv : invmx Syy = schur_inverse S11 S12 S21 S22.
+Proof. by apply: schur_inv => //; rewrite -S221_schur. Qed.
+
+Theorem tower_mean :
+  cond_mean mx1 m21 Sx21 S221 y2 = cond_mean mu_x (col_mx m1 m2) Sxy Syy (col_mx y1 y2).
+Proof.
+rewrite /cond_mean tower_inv /schur_inverse -S221_schur /Sxy.
+rewrite opp_col_mx add_col_mx mul_row_block mul_row_col.
+rewrite /mx1 /m21 /Sx21 /cond_mean /cond_cross /S21 trmxK.
+set Ai := invmx S11; set Si := invmx S221; set e1 := y1 - m1; set e2 := y2 - m2.
+rewrite !(mulmxDr, mulmxDl, mulmxBr, mulmxBl, opprD, mulmxN, mulNmx) !mulmxA.
+rewrite ?(mulmxDr, mulmxDl, mulmxBr, mulmxBl, opprD, mulmxN, mulNmx) ?mulmxA.
+by mx_abel.
+Qed.
+
+Hypothesis s11 : is_sym S11.
+
+Theorem tower_cov :
+  cond_cov Sxx1 Sx21 S221 = cond_cov Sxx Sxy Syy.
+Proof.
+rewrite /cond_cov tower_inv /schur_inverse -S221_schur /Sxy.
+rewrite tr_row_mx mul_row_block mul_row_col.
+rewrite /Sxx1 /Sx21 /cond_cov /cond_cross /S21 trmxK.
+set Ai := invmx S11; set Si := invmx S221.
+rewrite linearB /= !trmx_mul.
+rewrite !(mulmxDr, mulmxDl, mulmxBr, mulmxBl, opprD, mulmxN, mulNmx) !mulmxA.
+rewrite ?(mulmxDr, mulmxDl, mulmxBr, mulmxBl, opprD, mulmxN, mulNmx) ?mulmxA.
+have -> : Ai^T = Ai by apply: sym_inv.
+by mx_abel.
+Qed.
+
+
+Lemma entry11_add (X Y : 'M[F]_1) : X 0 0 + Y 0 0 = (X + Y) 0 0.
+Proof. by rewrite mxE. Qed.
+
+Theorem tower_maha :
+  maha (col_mx m1 m2) Syy (col_mx y1 y2) = maha m1 S11 y1 + maha m21 S221 y2.
+Proof.
+rewrite /maha tower_inv /schur_inverse -S221_schur.
+rewrite opp_col_mx add_col_mx tr_col_mx mul_row_block mul_row_col.
+rewrite /m21 /cond_mean /S21.
+set Ai := invmx S11; set Si := invmx S221; set e1 := y1 - m1; set e2 := y2 - m2.
+have -> : y2 - (m2 + S12^T *m Ai *m e1) = e2 - S12^T *m Ai *m e1 by rewrite opprD addrA.
+rewrite entry11_add; congr (fun_of_matrix _ 0 0).
+have sAi : Ai^T = Ai by apply: sym_inv.
+clearbody Ai Si e1 e2.
+rewrite [(_ - _)^T]linearB /= !trmx_mul trmxK sAi.
+rewrite !(mulmxDr, mulmxDl, mulmxBr, mulmxBl, opprD, mulmxN, mulNmx) !mulmxA.
+rewrite ?(mulmxDr, mulmxDl, mulmxBr, mulmxBl, opprD, mulmxN, mulNmx) ?mulmxA.
+by mx_abel.
+Qed.
+
+Theorem tower_det : \det Syy = \det S11 * \det S221.
+Proof. by rewrite /Syy schur_det // S221_schur. Qed.
+
+End Tower.
+
+(* negative log density of N(mu, S) at y, with the scalar logarithm and log(2 pi) as parameters *)
+Definition nll_gauss (flog : F -> F) (l2pi : F) k (mu : 'cV[F]_k) (S : 'M[F]_k) (y : 'cV[F]_k) : F :=
+  2%:R^-1 * (k%:R * l2pi + flog (\det S) + maha mu S y).
+
+(* nll(y1, y2) = nll(y1) + nll(y2 | y1) *)
+Theorem tower_nll (flog : F -> F) (l2pi : F) n1 n2
+    (m1 y1 : 'cV[F]_n1) (m2 y2 : 'cV[F]_n2) (S11 : 'M[F]_n1) (S12 : 'M[F]_(n1, n2)) (S22 : 'M[F]_n2) :
+  (forall a b, a != 0 -> b != 0 -> flog (a * b) = flog a + flog b) ->
+  is_sym S11 -> S11 \in unitmx -> cond_cov S22 S12^T S11 \in unitmx ->
+  nll_gauss flog l2pi (col_mx m1 m2) (block_mx S11 S12 S12^T S22) (col_mx y1 y2)
+  = nll_gauss flog l2pi m1 S11 y1
+    + nll_gauss flog l2pi (cond_mean m2 m1 S12^T S11 y1) (cond_cov S22 S12^T S11) y2.
+Proof.
+move=> logM s11 u11 u221; rewrite /nll_gauss tower_maha // tower_det // logM; first last.
+- by move: u221; rewrite unitmxE unitfE.
+- by move: u11; rewrite unitmxE unitfE.
+rewrite natrD.
+set a := flog _; set b := flog _; set c := maha _ _ _; set d := maha _ _ _.
+by ring.
+Qed.
+
+End Gauss.
